@@ -577,6 +577,7 @@ func (v *VecDense) DivElemVec(a, b Vector) {
 				ia += amat.Inc
 				ib += bmat.Inc
 			}
+			return
 		}
 	}
 
